@@ -159,6 +159,10 @@ def gen_media(ch, spec):
         for k in ("s2r_first", "s2r_other", "r2s"):
             cfg[k]["base"] = base
             cfg[k]["reorder_max"] = min(cfg[k]["reorder_max"], 1.0)
+    # first transmissions that are certainly lost, placed around a chosen point of the sequence space
+    # (the 65535->0 wrap when the origin is just below it): losses on both sides of the wrap, close together
+    cfg["hit_at"] = (65536 - cfg["seq0"]) if origin == "wrap" else ch.randint("cfg", 10, 300, 40)
+    cfg["hits"] = ch.choice("cfg", [[], [], [0], [-1], [-1, 0], [-2, 1], [-1, 0, 1], [-3, 4], [-8, 8], [-1, 16], [-16, 0]])
     n = ch.choice("wl", [10, 30, 60, 120])
     ops = []
     maxpk = 8
@@ -213,7 +217,9 @@ class MediaWorld(MediaBase):
         self.rebind(txmod, "random32", lambda: r32.pop(0) if r32 else real_r32())
         # network: classes on the media path
         fab = self.fabric
+        self.hit_seqs = {(cfg["seq0"] + cfg.get("hit_at", 0) + o) & 0xFFFF for o in cfg.get("hits", [])}
         fab.class_profiles[("S", "R")] = {"first": Profile.from_json(cfg["s2r_first"]),
+                                          "hit": Profile(base=cfg["s2r_first"]["base"], drop=1.0),
                                           "lock-on": Profile(base=cfg["s2r_first"]["base"], fifo=True),
                                           "retx": Profile.from_json(cfg["s2r_other"]),
                                           "srtcp": Profile.from_json(cfg["s2r_other"])}
@@ -232,6 +238,9 @@ class MediaWorld(MediaBase):
         self.n_first += 1
         if self.n_first <= 6:
             return "lock-on"            # SRTP rollover counter locks on: unfaulted
+        if pt == 96 and self.hit_seqs and struct.unpack_from("!H", data, 2)[0] in self.hit_seqs:
+            self.probes["targeted_losses"] += 1
+            return "hit"
         return "first"
 
     def frame_bytes(self, i, size):
@@ -560,6 +569,8 @@ def gen_dtls(ch, spec):
     ops = []
     for _ in range(n):
         ops.append({"dir": ch.choice("wl", ["A", "B"]), "kind": ch.choice("wl", ["rtp", "rtp", "rtcp", "data"]),
+                    # payload types outside 64..80 (which collide with RTCP packet types once the marker bit is set)
+                    "pt": ch.choice("wl", [96, 96, 0, 8, 13, 35, 63, 81, 90, 95, 111, 127]), "marker": ch.index("wl", 2),
                     "size": ch.choice("wl", [0, 1, 20, 200, 1000, 1150]), "dt": ch.choice("wl", [0.0, 0.001, 0.02, 0.2])})
     return cfg, ops
 
@@ -685,7 +696,8 @@ class DtlsWorld(MediaBase):
             peer = "B" if n == "A" else "A"
             rcv, snd, dat = FakeRtpReceiver(self, n), FakeRtpSender(self, n, self.SSRC[n]), FakeDataReceiver(self, n)
             rparams = RTCRtpReceiveParameters(
-                codecs=[RTCRtpCodecParameters(mimeType="video/VP8", clockRate=90000, payloadType=96)],
+                codecs=[RTCRtpCodecParameters(mimeType="video/VP8", clockRate=90000, payloadType=pt)
+                        for pt in (96, 0, 8, 13, 35, 63, 81, 90, 95, 111, 127)],
                 encodings=[RTCRtpDecodingParameters(ssrc=self.SSRC[peer], payloadType=96)])
             pair.dtls[n]._register_rtp_receiver(rcv, rparams)
             pair.dtls[n]._register_rtp_sender(snd, RTCRtpSendParameters())
@@ -750,9 +762,10 @@ class DtlsWorld(MediaBase):
             elif op["kind"] == "rtp":
                 seq[n] = (seq[n] + 1) & 0xFFFF
                 ts = (self.counter * 3000) & 0xFFFFFFFF
-                marker = self.counter & 1
-                pkt = struct.pack("!BBHLL", 0x80, (marker << 7) | 96, seq[n], ts, self.SSRC[n]) + body
-                item["key"] = ("rtp", (self.SSRC[n], seq[n], ts, 96, marker, body))
+                marker = op.get("marker", self.counter & 1)
+                pt = op.get("pt", 96)
+                pkt = struct.pack("!BBHLL", 0x80, (marker << 7) | pt, seq[n], ts, self.SSRC[n]) + body
+                item["key"] = ("rtp", (self.SSRC[n], seq[n], ts, pt, marker, body))
                 self.pending[n].append(item)
                 await d._send_rtp(pkt)
             else:
